@@ -102,9 +102,109 @@ func isBoundNFKDString(fv FuncV) bool {
 	return ok && okc && c == int64(norm.NFKD)
 }
 
+// localMemory: the object was made by a make or a local variable of a module function during
+// the evaluation (not a package-level variable, not something a caller handed in).
+func localMemory(o *Obj) bool {
+	if o == nil || o.Site == nil {
+		return false
+	}
+	switch x := o.Site.(type) {
+	case *ssa.MakeSlice, *ssa.Alloc:
+		return true
+	case *ssa.Slice:
+		// the slice of a local array (what `make([]byte, 64)` with a constant size compiles to)
+		_, isAlloc := x.X.(*ssa.Alloc)
+		return isAlloc
+	}
+	return false
+}
+
 func (a *Analysis) rawUses(root ssa.Value) (bad []rawUse, sanitised int) {
 	seen := map[ssa.Value]bool{}
 	var walk func(v ssa.Value, depth int)
+	// walkStruct: sv is a struct (or a pointer to one) whose field f holds the raw text
+	type sf struct {
+		v ssa.Value
+		f int
+	}
+	seenS := map[sf]bool{}
+	var walkStruct func(sv ssa.Value, f int, depth int)
+	walkStruct = func(sv ssa.Value, f int, depth int) {
+		if seenS[sf{sv, f}] || depth > 16 {
+			return
+		}
+		seenS[sf{sv, f}] = true
+		refs := sv.Referrers()
+		if refs == nil {
+			return
+		}
+		_, isPtr := sv.Type().Underlying().(*types.Pointer)
+		for _, r := range *refs {
+			switch x := r.(type) {
+			case *ssa.DebugRef:
+			case *ssa.FieldAddr:
+				if !isPtr || x.X != sv {
+					bad = append(bad, rawUse{r, "struct holding the raw argument used in an unexpected way"})
+					continue
+				}
+				if x.Field != f {
+					continue
+				}
+				for _, fr := range *x.Referrers() {
+					switch y := fr.(type) {
+					case *ssa.DebugRef:
+					case *ssa.UnOp:
+						if y.Op == token.MUL {
+							walk(y, depth+1)
+						}
+					case *ssa.Store:
+						if y.Addr != ssa.Value(x) {
+							bad = append(bad, rawUse{fr, "address of the field holding the raw argument stored"})
+						}
+					default:
+						bad = append(bad, rawUse{fr, "address of the field holding the raw argument escapes"})
+					}
+				}
+			case *ssa.Field:
+				if x.X == sv && x.Field == f {
+					walk(x, depth+1)
+				}
+			case *ssa.UnOp:
+				if isPtr && x.Op == token.MUL {
+					walkStruct(x, f, depth+1)
+				} else {
+					bad = append(bad, rawUse{r, "struct holding the raw argument used in an unexpected way"})
+				}
+			case *ssa.Store:
+				// the struct value spilled into a local of the callee (a value receiver whose
+				// address is taken): that local holds it
+				if al, ok := x.Addr.(*ssa.Alloc); ok && x.Val == sv && !isPtr {
+					walkStruct(al, f, depth+1)
+				} else if x.Addr == sv && seenS[sf{x.Val, f}] {
+					// the spill itself
+				} else if x.Addr == sv {
+					// (re)initialisation of the struct itself: `*p = T{}` would drop the text
+					bad = append(bad, rawUse{r, "struct holding the raw argument overwritten"})
+				} else {
+					bad = append(bad, rawUse{r, "struct holding the raw argument stored to memory"})
+				}
+			case ssa.CallInstruction:
+				cc := x.Common()
+				callee := cc.StaticCallee()
+				if callee != nil && len(callee.Blocks) > 0 && callee.Pkg != nil && a.P.InModule(callee.Pkg) && len(callee.Params) == len(cc.Args) {
+					for i, arg := range cc.Args {
+						if arg == sv {
+							walkStruct(callee.Params[i], f, depth+1)
+						}
+					}
+					continue
+				}
+				bad = append(bad, rawUse{r, "struct holding the raw argument passed to " + calleeName(x)})
+			default:
+				bad = append(bad, rawUse{r, "struct holding the raw argument used in an unexpected way"})
+			}
+		}
+	}
 	walk = func(v ssa.Value, depth int) {
 		if seen[v] || depth > 16 {
 			return
@@ -154,6 +254,14 @@ func (a *Analysis) rawUses(root ssa.Value) (bad []rawUse, sanitised int) {
 								}
 							}
 						}
+					}
+				} else if fa, ok := x.Addr.(*ssa.FieldAddr); ok && x.Val == v {
+					// a field of a struct built in place (`Mnemonic{text: mnemonic}.Seed(p)`): the
+					// raw text is wherever that field of that struct is read
+					if al, isAl := fa.X.(*ssa.Alloc); isAl {
+						walkStruct(al, fa.Field, depth+1)
+					} else {
+						bad = append(bad, rawUse{r, "raw argument stored to memory"})
 					}
 				} else {
 					bad = append(bad, rawUse{r, "raw argument stored to memory"})
@@ -424,6 +532,13 @@ func (a *Analysis) ruleF2() {
 				same = false
 			}
 		}
+		if !same && isB && got.Obj != nil && got.Obj != keyRes.Obj && got.WinOf == nil && localMemory(got.Obj) {
+			// a copy: memory made during this call (make, a local array) that holds, whole and
+			// unchanged, what pbkdf2.Key returned (`var s Seed; copy(s[:], key); return s.Bytes()`)
+			if bc, ok := x.State[got.Obj].(BufC); ok && bc.B.Src == "pbkdf2.Key" && bc.B.LenKnown && bc.B.Len.Const() && bc.B.Len.A == 64 && bc.B.WinOf == nil {
+				same = true
+			}
+		}
 		if !same {
 			okRet = false
 			r.Bad("F2r", fk+"/result", a.P.InstrPos(x.Ret), "", "%s returns %v instead of the slice pbkdf2.Key returned, unchanged: not (necessarily) a fresh 64-byte result", fk, x.Vals)
@@ -447,6 +562,13 @@ func (a *Analysis) ruleF2() {
 			}
 			if ci, ok := c.Instr.(ssa.CallInstruction); ok && a.inertCall(ci) {
 				continue // a trace region, a profiler label
+			}
+			if c.Callee == "copy" && len(c.Args) == 2 {
+				// into memory made during this call: what is returned is judged by F2r, what the
+				// KDF is given by the operands as they stand when it is called
+				if d, ok := c.Args[0].(BytesV); ok && d.Obj != nil && localMemory(d.Obj) {
+					continue
+				}
 			}
 			r.Bad("F2", fk+"/extra-call", a.P.InstrPos(c.Instr), "", "%s also calls %s: the seed must be a function of the two NFKD forms only", fk, c.Callee)
 		}
